@@ -29,7 +29,7 @@ type Anchor struct {
 	Pat   string
 	K     int
 	After bool
-	Kind  string // ghost | assert | assume
+	Kind  string // ghost | assert | assume | abstract
 	C     *Clause
 	used  bool
 }
@@ -159,7 +159,7 @@ func parseContractBlock(body, file string, line0 int) (*Contract, error) {
 			ct.Loops[curLoop].Dec = mk(r)
 		case "at":
 			// at "pattern"#k before|after: kind text
-			m := regexp.MustCompile(`^"((?:[^"\\]|\\.)*)"(?:#(\d+))?\s+(before|after):\s*(ghost|assert|assume)\s+(.*)$`).FindStringSubmatch(r.text)
+			m := regexp.MustCompile(`^"((?:[^"\\]|\\.)*)"(?:#(\d+))?\s+(before|after):\s*(ghost|assert|assume|abstract)\s+(.*)$`).FindStringSubmatch(r.text)
 			if m == nil {
 				return nil, fmt.Errorf("line %d: bad 'at' clause: %s", r.line, r.text)
 			}
@@ -279,7 +279,7 @@ func xformSpec(s string) string {
 	}
 	s = sb.String()
 	// quantifier prefix
-	for _, q := range []string{"forall", "exists"} {
+	for _, q := range []string{"forall", "exists", "all8"} {
 		if strings.HasPrefix(s, q+" ") {
 			k := strings.Index(s, "::")
 			if k < 0 {
@@ -296,7 +296,7 @@ func xformSpec(s string) string {
 	}
 	// a quantifier after a top-level && or || : "A && forall ..." binds to the end
 	for _, op := range []string{"&&", "||"} {
-		for _, q := range []string{"forall ", "exists "} {
+		for _, q := range []string{"forall ", "exists ", "all8 "} {
 			if k := indexTop(s, op+" "+q); k >= 0 {
 				return s[:k] + op + " " + xformSpec(s[k+len(op)+1:])
 			}
